@@ -718,6 +718,23 @@ theorem C11_setup_type_cmd_option (valid : List Str) (pad1 first : Str) (rest : 
   simp only [cmdArg_words pad1 first rest pad2 h1 hf hr h2, normTypes, argTypes]
 
 open EupsModel.SetupType in
+/-- **C11_setup_type_sequence.**  Evaluations of a table through one live `Eups` object — dependency walks
+(`Table.dependencies(Eups, followExact)`, inexact ones included) and evaluations as `Eups.setup` makes them
+(`table.actions(flavor, setupType=self.setupType)`), in any order and number — never change `Eups.setupType`: every
+step is evaluated for the initial types (an inexact walk reads the table without `exact`, on a list of its own), so a
+later `if (type == exact) {A} else {B}` keeps taking the branch the option named. -/
+theorem C11_setup_type_sequence (ex : Bool) (pdir : Option Str) (fl text : Str) (ts : List Str) (steps : List Step) :
+    runSeq ex pdir fl text ts steps = (steps.map fun st => (stepOut ex pdir fl text ts st).1) ∧
+    (∀ o ∈ runSeq ex pdir fl text ts steps, o.state = ts) ∧
+    (stepOut ex pdir fl text ts .acts).1.actions = some (tableActions repaired pdir ⟨fl, ts⟩ text) ∧
+    (∀ fe, (stepOut ex pdir fl text ts (.deps fe)).1.asked = some (depTypes (fe.getD ex) ts)) := by
+  refine ⟨runSeq_stable ex pdir fl text steps ts, ?_, rfl, fun _ => rfl⟩
+  intro o ho
+  rw [runSeq_stable] at ho
+  obtain ⟨st, _, rfl⟩ := List.mem_map.mp ho
+  exact (stepOut_state ex pdir fl text ts st).2
+
+open EupsModel.SetupType in
 /-- **C11_dependencies_types.**  `Table.dependencies` reads the table for the same types when it follows exact
 versions, and for the types other than `exact` (order kept) when it does not. -/
 theorem C11_dependencies_types (ts : List Str) :
